@@ -479,11 +479,26 @@ def run_cancel(ctx, r):
             r.require(f is sp_ and nf(c.func.value) == "self._cancel_segment_request", f, f.loc(c),
                       "%s cancels %s" % (short(f), nf(c.func.value)))
     r.require(bool(calls_in_func(sp_, "cancel")), sp_, sp_.loc(), "stopProducing no longer cancels the outstanding segment request")
+    HANDLE = "self._cancel_segment_request"
+    fsp = FlowNorm(sp_)
+
+    def cancels_handle(q):
+        return any(isinstance(c.func, ast.Attribute) and nf(c.func.value) == HANDLE for c in calls_at(q, "cancel"))
+
+    def no_handle(q, lab):
+        f = fsp.edge_fact(q, lab)
+        return bool(f) and ((f[0] == "false" and f[1] == HANDLE) or (f[0] in ("is", "==") and {f[1], f[2]} == {"None", HANDLE}))
+    r.site(sp_, None, "the outstanding request is cancelled whenever there is one")
+    for (n, w) in find_path_avoiding(sp_.cfg(), lambda q: q.kind == "exit", gate_node=cancels_handle, gate_edge=no_handle,
+                                     skip_exc_edges=True):
+        r.violation(sp_, sp_.loc(), "stopProducing can finish without cancelling the segment request it has outstanding (%s is "
+                    "set on this path): the node goes on fetching for, and delivers to, a read that was stopped (path: %s)"
+                    % (HANDLE, w.brief()), w)
 
 
-def run_outstanding(ctx, r):
-    """At most one segment request of a read is outstanding at any time (C04.7)."""
-    idx = ctx.idx
+def seg_fetcher(idx):
+    """(Segmentation class, its functions, the one method F that calls get_segment, that call, its CFG node,
+    {qual: method} of the methods from which the get_segment call is reachable inside the class)."""
     ci = idx.cls(SEG)
     funcs = all_funcs_of(ci)
     fetchers = [f for f in funcs if calls_in_func(f, "get_segment", into_lambda=True)]
@@ -492,6 +507,26 @@ def run_outstanding(ctx, r):
     F = fetchers[0]
     gc = the_call(F, "get_segment")
     gn = node_of(F, gc)
+    reach = {F.qual: F}
+    grew = True
+    while grew:
+        grew = False
+        for g in funcs:
+            if g.qual in reach:
+                continue
+            for x in func_own_nodes(g, into_lambda=True):
+                m_ = self_method_value(g, x) if isinstance(x, ast.Attribute) else None
+                if m_ is not None and m_.qual in reach:
+                    reach[g.qual] = g
+                    grew = True
+                    break
+    return ci, funcs, F, gc, gn, reach
+
+
+def run_outstanding(ctx, r):
+    """At most one segment request of a read is outstanding at any time (C04.7)."""
+    idx = ctx.idx
+    ci, funcs, F, gc, gn, reach = seg_fetcher(idx)
     fs = Sym(idx, F)
     fcfg = F.cfg()
     handle = nf(fs.expand(gn, gc)) + "[1]"
@@ -588,21 +623,6 @@ def run_outstanding(ctx, r):
             if ns:
                 out.append((g, ns))
         return out
-
-    # methods from which the get_segment call is reachable inside the class
-    reach = {F.qual: F}
-    grew = True
-    while grew:
-        grew = False
-        for g in funcs:
-            if g.qual in reach:
-                continue
-            for x in func_own_nodes(g, into_lambda=True):
-                m_ = self_method_value(g, x) if isinstance(x, ast.Attribute) else None
-                if m_ is not None and m_.qual in reach:
-                    reach[g.qual] = g
-                    grew = True
-                    break
 
     # -- (a) every route from a method the consumer may call at any time to get_segment passes `record is None`.
     #    start() is exempt: it runs once on the fresh object (C04.1), whose records __init__ sets to None.
@@ -757,6 +777,466 @@ def run_restart(ctx, r):
                         "complete (path: %s)" % (short(fn), what, w.brief()), w)
 
 
+# ------------------------------------------------------------------ Deferred results and callback chains
+REGK = {"addCallback": "cb", "addErrback": "eb", "addBoth": "both", "addCallbacks": "pair"}
+
+
+def callback_func(fn, t):
+    """What a callback expression of fn names: the lambda itself, a nested function of fn (or of an enclosing
+    function), or a same-class method; None when it is something else."""
+    if isinstance(t, ast.Lambda):
+        return t
+    if isinstance(t, ast.Name):
+        f = fn
+        while f is not None:
+            if t.id in f.nested:
+                return f.nested[t.id]
+            f = f.parent
+        return None
+    return self_method_value(fn, t)
+
+
+def callback_returns(fn, t):
+    """(parameter names, [normal form of the value returned on each normal way out]) of a callback; 'None' stands
+    for falling off the end.  (None, []) when the callback cannot be resolved."""
+    g = callback_func(fn, t)
+    if g is None:
+        return None, []
+    if isinstance(g, ast.Lambda):
+        return [a.arg for a in g.args.args], [nf(g.body)]
+    cfg = g.cfg()
+    out = []
+    for (pid, lab) in cfg.pred[cfg.exit.id]:
+        pn = cfg.nodes[pid]
+        if is_return(pn) and pn.ast.value is not None:
+            out.append(nf(pn.ast.value))
+        else:
+            out.append("None")
+    return first_positional_params(g), out
+
+
+def passes_through(fn, t):
+    ps, rets = callback_returns(fn, t)
+    return bool(ps) and bool(rets) and all(x == ps[0] for x in rets)
+
+
+def unchain(e):
+    """x.addCallback(a).addErrback(b) -> (x, [call_a, call_b])."""
+    chain = []
+    while isinstance(e, ast.Call) and isinstance(e.func, ast.Attribute) and e.func.attr in REGK:
+        chain.append(e)
+        e = e.func.value
+    chain.reverse()
+    return e, chain
+
+
+def flat_regs(regs):
+    """[(position, {'cb','eb'}, callable ast, registration call)] - addCallbacks contributes two entries."""
+    out = []
+    for i, (kind, tgt, err, call) in enumerate(regs):
+        if kind == "pair":
+            out.append((i, {"cb"}, tgt, call))
+            if err is not None:
+                out.append((i, {"eb"}, err, call))
+        else:
+            out.append((i, {"cb": {"cb"}, "eb": {"eb"}, "both": {"cb", "eb"}}[kind], tgt, call))
+    return out
+
+
+def returned_deferred(sym, rn):
+    """(origin, success value) of the Deferred returned at the return node rn of sym.fn.  origin: the expanded
+    expression the Deferred comes from, callbacks stripped.  success value: normal form of what the Deferred finally
+    fires with - 'ORIGIN' when every success callback registered on it in this function hands its argument on, the
+    normal form of the returned expression when the last value-changing callback returns one thing, else '?'."""
+    fn = sym.fn
+    base, chain = unchain(rn.ast.value)
+    regs = []
+    if isinstance(base, ast.Name):
+        regs = [(x.kind, x.target, x.errtarget, x.call) for x in registrations(fn, base.id)]
+        origin, chain0 = unchain(sym.expand(rn, base))
+        # a chain assigned to the name (d = f().addCallback(..)) is already part of registrations()
+    else:
+        for c in chain:
+            if c.args:
+                kind = REGK[c.func.attr]
+                regs.append((kind, c.args[0], c.args[1] if kind == "pair" and len(c.args) > 1 else None, c))
+        origin = sym.expand(rn, base)
+    value = "ORIGIN"
+    for (_i, ch, t, _c) in flat_regs(regs):
+        if "cb" not in ch or passes_through(fn, t):
+            continue
+        _ps, rets = callback_returns(fn, t)
+        value = rets[0] if rets and all(x == rets[0] for x in rets) else "?"
+    return origin, value
+
+
+def segment_deferred(F, gn, gc):
+    """Name of the local that holds the Deferred returned by the get_segment call of F."""
+    if isinstance(gn.ast, ast.Assign) and len(gn.ast.targets) == 1 and isinstance(gn.ast.targets[0], (ast.Tuple, ast.List)) \
+            and gn.ast.value is gc and gn.ast.targets[0].elts and isinstance(gn.ast.targets[0].elts[0], ast.Name):
+        return gn.ast.targets[0].elts[0].id
+    raise AnchorVanished("%s: cannot identify the Deferred returned by get_segment" % short(F))
+
+
+def reach_refs(g, n, reach):
+    """(called, passed): node n of g calls a same-class method from which get_segment is reachable / hands such a
+    method on as a value (eventually(self.m), addCallback(self.m))."""
+    called = passed = False
+    funcs_called = set()
+    for c in node_calls(n, into_lambda=True):
+        m = self_callee(g, c)
+        if m is not None and m.qual in reach:
+            called = True
+            funcs_called.add(id(c.func))
+    for e in node_exprs(n):
+        for x in own_nodes(e, into_lambda=True):
+            if isinstance(x, ast.Attribute) and id(x) not in funcs_called and isinstance(x.ctx, ast.Load):
+                m = self_method_value(g, x)
+                if m is not None and m.qual in reach:
+                    passed = True
+    return called, passed
+
+
+def run_result(ctx, r):
+    """Every read() hands back a Deferred that fires with the caller's consumer (C04.9)."""
+    idx = ctx.idx
+    # -- DownloadNode.read: succeed(consumer) for the empty read, else the Deferred of the fresh Segmentation
+    rd = idx.func(NODE + ".read")
+    rp = first_positional_params(rd)
+    s = Sym(idx, rd)
+    sc = the_call(rd, "Segmentation")
+    stc = the_call(rd, "start")
+    r.site(rd, None, "read returns a Deferred that fires with the consumer")
+    rets = rd.cfg().find(is_return)
+    r.require(bool(rets), rd, rd.loc(), "DownloadNode.read returns nothing")
+    for n in rets:
+        if n.ast.value is None or _is_none(n.ast.value):
+            r.violation(rd, rd.loc(n.ast), "DownloadNode.read returns None instead of a Deferred: the caller of this read "
+                        "cannot wait for (or use) its result")
+            continue
+        origin, value = returned_deferred(s, n)
+        if isinstance(origin, ast.Call) and call_tail(origin) == "succeed":
+            got = nf(origin.args[0]) if (value == "ORIGIN" and len(origin.args) == 1) else value
+            r.require(got == rp[0], rd, rd.loc(n.ast), "an empty read completes with %s, not with the consumer" % got)
+        elif isinstance(origin, ast.Call) and isinstance(origin.func, ast.Attribute) and origin.func.attr == stc.func.attr \
+                and recv_is(origin.func.value, sc):
+            r.require(value in ("ORIGIN", rp[0]), rd, rd.loc(n.ast), "the read's Deferred is made to fire with %s instead of "
+                      "the consumer handed on by Segmentation" % value)
+        else:
+            r.violation(rd, rd.loc(n.ast), "DownloadNode.read returns %s: neither succeed(consumer) nor the Deferred of the "
+                        "Segmentation started for this read" % nf(origin))
+    # -- Segmentation.start returns the Deferred that _fetch_next fires with the consumer
+    ci, funcs, F, gc, gn, reach = seg_fetcher(idx)
+    start_fn = ci.lookup(stc.func.attr)
+    if start_fn is None:
+        raise AnchorVanished("DownloadNode.read starts the Segmentation with an unknown method")
+    done = [c for c in calls_in_func(F, "callback") if isinstance(c.func, ast.Attribute)]
+    if not done:
+        raise AnchorVanished("%s never completes the read" % short(F))
+    r.site(start_fn, None, "the Deferred of the read fires with the consumer")
+    dattrs = {nf(c.func.value) for c in done}
+    for c in done:
+        r.require(len(c.args) == 1 and nf(c.args[0]) == "self._consumer", F, F.loc(c),
+                  "the finished read fires its Deferred with %s, not with its consumer" % src(F, c))
+    ss = Sym(idx, start_fn)
+    srets = start_fn.cfg().find(is_return)
+    r.require(bool(srets), start_fn, start_fn.loc(), "Segmentation.%s returns nothing" % start_fn.name)
+    for n in srets:
+        if n.ast.value is None:
+            r.violation(start_fn, start_fn.loc(n.ast), "Segmentation.%s returns None, not the Deferred of the read" % start_fn.name)
+            continue
+        base, _ch = unchain(n.ast.value)
+        r.require(nf(base) in dattrs, start_fn, start_fn.loc(n.ast), "Segmentation.%s returns %s, but the read is completed "
+                  "through %s" % (start_fn.name, nf(base), " / ".join(sorted(dattrs))))
+    for da in sorted(dattrs):
+        for reg in registrations(start_fn, da):
+            for (_i, ch, t, call) in flat_regs([(reg.kind, reg.target, reg.errtarget, reg.call)]):
+                if "cb" in ch:
+                    r.require(passes_through(start_fn, t), start_fn, start_fn.loc(call), "%s replaces the result of the read "
+                              "(the consumer)" % src(start_fn, t))
+
+    # -- the wrappers
+    def wrapper(fn, inner_tail, want_args, what):
+        """fn returns the Deferred of <something>.<inner_tail>(..) called with want_args(expanded call) and finally
+        firing with fn's consumer."""
+        ps = first_positional_params(fn)
+        sy = Sym(idx, fn)
+        rs = fn.cfg().find(is_return)
+        r.site(fn, None, what)
+        r.require(bool(rs), fn, fn.loc(), "%s returns nothing" % short(fn))
+        for n in rs:
+            if n.ast.value is None or _is_none(n.ast.value):
+                r.violation(fn, fn.loc(n.ast), "%s returns None instead of a Deferred" % short(fn))
+                continue
+            origin, value = returned_deferred(sy, n)
+            if not (isinstance(origin, ast.Call) and call_tail(origin) == inner_tail):
+                r.violation(fn, fn.loc(n.ast), "%s returns %s, not the Deferred of %s(..)" % (short(fn), nf(origin), inner_tail))
+                continue
+            want_args(fn, ps, n, origin, value)
+
+    def cipher_args(fn, ps, n, origin, value):
+        inner = idx.func("immutable.filenode:CiphertextFileNode.read")
+        b = bind_call_args(inner, origin)
+        ip = first_positional_params(inner)
+        dc = the_call(fn, "DecryptingConsumer")
+        r.require(b.get(ip[0]) is not None and recv_is(b[ip[0]], dc), fn, fn.loc(n.ast),
+                  "the ciphertext is not read into the DecryptingConsumer built for this call")
+        r.require(b.get(ip[1]) is not None and nf(b[ip[1]]) == ps[1] and b.get(ip[2]) is not None and nf(b[ip[2]]) == ps[2],
+                  fn, fn.loc(n.ast), "the ciphertext range read is (%s, %s), not the (%s, %s) of this call" % (
+                      nf(b[ip[1]]) if ip[1] in b else "default", nf(b[ip[2]]) if ip[2] in b else "default", ps[1], ps[2]))
+        r.require(value == ps[0], fn, fn.loc(n.ast), "%s fires with %s, not with the caller's consumer" % (
+            short(fn), "the DecryptingConsumer" if value == "ORIGIN" else value))
+
+    def node_args(fn, ps, n, origin, value):
+        r.require(nf(origin.func.value) == "self._node" and [nf(a) for a in origin.args] == ps[:3] and not origin.keywords,
+                  fn, fn.loc(n.ast), "%s reads %s, not (consumer, offset, size) of this call" % (short(fn), nf(origin)))
+        r.require(value == "ORIGIN", fn, fn.loc(n.ast), "%s replaces the result of the read by %s" % (short(fn), value))
+
+    def literal_args(fn, ps, n, origin, value):
+        r.require(value == ps[0], fn, fn.loc(n.ast), "%s fires with %s, not with the caller's consumer" % (
+            short(fn), "the last byte sent" if value == "ORIGIN" else value))
+    wrapper(idx.func("immutable.filenode:ImmutableFileNode.read"), "read", cipher_args, "fires with the caller's consumer")
+    wrapper(idx.func("immutable.filenode:CiphertextFileNode.read"), "read", node_args, "hands the read to the download node")
+    wrapper(idx.func("immutable.literal:LiteralFileNode.read"), "beginFileTransfer", literal_args, "fires with the caller's consumer")
+
+
+def run_service(ctx, r):
+    """Every queued segment request is started and, once taken out of the queue, delivered (C04.10)."""
+    idx = ctx.idx
+    ci = idx.cls(NODE)
+    funcs = all_funcs_of(ci)
+    eff = ActiveFetcher(idx, ci)
+    may_start = set(eff.starters)
+    grew = True
+    while grew:
+        grew = False
+        for g in funcs:
+            if g.qual not in may_start and any((self_callee(g, c) is not None and self_callee(g, c).qual in may_start)
+                                               for c in calls_in_func(g)):
+                may_start.add(g.qual)
+                grew = True
+
+    def starts_next(fn):
+        def p(q):
+            for c in node_calls(q):
+                m = self_callee(fn, c)
+                if m is not None and m.qual in may_start:
+                    return True
+                for a in list(c.args) + [k.value for k in c.keywords]:
+                    m = self_method_value(fn, a)
+                    if m is not None and m.qual in may_start:
+                        return True
+            return False
+        return p
+    # -- (a) get_segment starts a fetcher when none is active
+    gs = idx.func(NODE + ".get_segment")
+    ap = the_call(gs, "append", lambda c: attr_path(c.func.value) == "self._segment_requests")
+    apn = node_of(gs, ap)
+    r.site(gs, ap, "a queued request is started")
+    for (n, w) in find_path_from_to_avoiding(gs.cfg(), lambda q: q is apn, starts_next(gs)):
+        r.violation(gs, gs.loc(ap), "get_segment queues the request but can return without %s: when no segment is being fetched "
+                    "nothing starts this one, and the read never receives its bytes (path: %s)" % (
+                        " / ".join(sorted(q.split(".")[-1] + "()" for q in eff.starters)), w.brief()), w)
+    # -- (b) the requests _extract_requests takes out of the queue are handed to _deliver
+    er = idx.func(NODE + "._extract_requests")
+    dl = idx.func(NODE + "._deliver")
+    dp = first_positional_params(dl)
+    users = 0
+    for f in funcs:
+        calls = [c for c in calls_in_func(f, er.name) if self_callee(f, c) is er]
+        if not calls or f is er:
+            continue
+        fsym = Sym(idx, f)
+        cfg = f.cfg()
+        loops = []
+        for q in cfg.nodes:
+            if q.kind == "iter":
+                it = fsym.expand(q, q.ast.iter)
+                if isinstance(it, ast.Call) and call_tail(it) == er.name:
+                    loops.append(q)
+        if len(loops) < len(calls):
+            r.violation(f, f.loc(calls[0]), "%s takes requests out of the queue without going through them: their reads are "
+                        "never completed" % short(f))
+        for ln in loops:
+            users += 1
+            r.site(f, ln.ast, "retired requests are delivered")
+            tg = ln.ast.target
+            if isinstance(tg, (ast.Tuple, ast.List)) and len(tg.elts) >= 2 and all(isinstance(e, ast.Name) for e in tg.elts[:2]):
+                want = [tg.elts[0].id, tg.elts[1].id]
+            elif isinstance(tg, ast.Name):
+                want = [norm_src("%s[0]" % tg.id), norm_src("%s[1]" % tg.id)]
+            else:
+                raise AnchorVanished("%s: cannot read the loop over the retired requests" % short(f))
+
+            def delivers(q, _f=f, _want=want):
+                for c in node_calls(q):
+                    args = None
+                    if self_callee(_f, c) is dl:
+                        args = list(c.args)
+                    else:
+                        for i, a in enumerate(c.args):
+                            if self_method_value(_f, a) is dl:
+                                args = list(c.args[i + 1:])
+                                break
+                    if args is not None and len(args) >= len(dp) and [nf(a) for a in args[:2]] == _want:
+                        return True
+                return False
+
+            def transfer(n, lab, nxt, st, _ln=ln):
+                if lab == "exc":
+                    return None
+                if n is _ln:
+                    return 0 if lab == "iter" else None
+                if n.kind in ("exit", "raise") or delivers(n):
+                    return None
+                return 0
+            visited, parent = explore(cfg, 0, transfer, start=ln)
+            r.count(len(visited))
+            bad = None
+            for (nid, st) in sorted(visited):
+                q = cfg.nodes[nid]
+                if q is ln:
+                    continue
+                if q.kind == "exit" or (not delivers(q) and any(d == ln.id and lab != "exc" for (d, lab) in cfg.succ[nid])):
+                    bad = (nid, st)
+                    break
+            if bad is not None:
+                w = witness(cfg, parent, bad)
+                r.violation(f, f.loc(ln.ast), "%s removes the requests for a segment from the queue but does not hand every one of "
+                            "them to %s(%s, %s, ..): the read that made the request never gets its segment (or its failure) and "
+                            "never completes (path: %s)" % (short(f), dl.name, want[0], want[1], w.brief()), w)
+    if not users:
+        raise AnchorVanished("nobody goes through the requests returned by _extract_requests")
+    # -- (c) _deliver fires the Deferred of every request that is still active
+    r.site(dl, None, "an active request is fired")
+    fnd = FlowNorm(dl)
+
+    def fires(q):
+        return any(nf(c.func.value) == dp[0] and len(c.args) == 1 and nf(c.args[0]) == dp[2]
+                   for c in calls_at(q, "callback") if isinstance(c.func, ast.Attribute))
+
+    def inactive(q, lab):
+        f_ = fnd.edge_fact(q, lab)
+        return bool(f_) and f_[0] == "false" and f_[1] == dp[1] + ".active"
+    for (n, w) in find_path_avoiding(dl.cfg(), lambda q: q.kind == "exit", gate_node=fires, gate_edge=inactive, skip_exc_edges=True):
+        r.violation(dl, dl.loc(), "%s can return without %s.callback(%s) although the request is still active: the segment is "
+                    "dropped and the read waits for ever (path: %s)" % (short(dl), dp[0], dp[2], w.brief()), w)
+
+
+def run_chain(ctx, r):
+    """The callbacks on the segment Deferred write the bytes, retry a wrong guess and continue the read; a resumed
+    read is let through its gates again (C04.11)."""
+    idx = ctx.idx
+    ci, funcs, F, gc, gn, reach = seg_fetcher(idx)
+    fcfg = F.cfg()
+    fnorm = FlowNorm(F)
+    dname = segment_deferred(F, gn, gc)
+    regs = flat_regs([(x.kind, x.target, x.errtarget, x.call) for x in registrations(F, dname)])
+    writers = [g for g in funcs if any(isinstance(c.func, ast.Attribute) and nf(c.func.value) == "self._consumer"
+                                       for c in calls_in_func(g, "write"))]
+    if len(writers) != 1:
+        raise AnchorVanished("Segmentation: expected one method that writes to the consumer, found %d" % len(writers))
+    W = writers[0]
+    wc = the_call(W, "write")
+    wn = node_of(W, wc)
+    # -- (a) the writer is a success callback of the segment Deferred
+    r.site(F, gc, "the delivered segment reaches the writer")
+    iw = [i for (i, ch, t, _c) in regs if "cb" in ch and self_method_value(F, t) is W]
+    if not iw:
+        r.violation(F, F.loc(gc), "%s is not registered as a success callback on the Deferred of get_segment: the delivered "
+                    "segment is never written to the consumer and the read never completes" % short(W))
+        return
+    iw = iw[0]
+    # -- (b) a wrong guess of the segment size is retried
+    r.site(F, gc, "a wrong segment guess is retried")
+    SEGSZ = "self._node.segment_size"
+    retries = [(i, t, c) for (i, ch, t, c) in regs if "eb" in ch and i > iw and self_method_value(F, t) is not None
+               and self_method_value(F, t).qual in reach]
+    if not retries:
+        r.violation(F, F.loc(gc), "no errback on the segment Deferred fetches again after %s: a read that starts past segment 0 "
+                    "of a file whose segment size differs from the guess fails with WrongSegmentError / BadSegmentNumberError "
+                    "instead of returning its slice" % short(W))
+    else:
+        ir = retries[0][0]
+        for (i, ch, t, c) in regs:
+            if iw < i < ir and "eb" in ch and not passes_through(F, t):
+                r.violation(F, F.loc(c), "the errback %s runs before the retry and swallows the wrong-segment failure" % src(F, t))
+        retry_ids = {node_of(F, c).id for (_i, _t, c) in retries}
+
+        def known(q, lab):
+            f_ = fnorm.edge_fact(q, lab)
+            if not f_:
+                return False
+            return (f_[0] in ("is not", "!=") and {f_[1], f_[2]} == {"None", SEGSZ}) or (f_[0] == "truth" and f_[1] == SEGSZ)
+
+        def transfer(n, lab, nxt, st):
+            if lab == "exc":
+                return None
+            if n.kind in ("entry", "exit", "raise"):
+                return st
+            called, ok = st
+            if n is gn:
+                called = True
+            if n.id in retry_ids or known(n, lab):
+                ok = True
+            return (called, ok)
+        visited, parent = explore(fcfg, (False, False), transfer)
+        r.count(len(visited))
+        key = (fcfg.exit.id, (True, False))
+        if key in visited:
+            w = witness(fcfg, parent, key)
+            r.violation(F, F.loc(retries[0][2]), "the retry errback is not registered when the segment size is only a guess "
+                        "(%s is None): the one case in which the wrong segment can be fetched is the one that is not retried "
+                        "(path: %s)" % (SEGSZ, w.brief()), w)
+    # -- (c) after writing, the read goes on (next segment or completion)
+    r.site(W, wc, "the read continues after a write")
+    later = any(i > iw and "cb" in ch and ((self_method_value(F, t) is not None and self_method_value(F, t).qual in reach)
+                                           or (isinstance(t, ast.Lambda) and any(
+                                               isinstance(x, ast.Attribute) and self_method_value(F, x) is not None
+                                               and self_method_value(F, x).qual in reach for x in ast.walk(t.body))))
+                for (i, ch, t, _c) in regs)
+    if not later:
+        for (n, w) in find_path_from_to_avoiding(W.cfg(), lambda q: q is wn, lambda q: any(reach_refs(W, q, reach))):
+            r.violation(W, W.loc(wc), "after writing a segment's bytes %s can return without asking for the next segment or "
+                        "completing the read: a read never fires its Deferred (path: %s)" % (short(W), w.brief()), w)
+    # -- (d) resumeProducing restores every flag that pauseProducing cleared and that gates the way to get_segment
+    pp, rs = ci.lookup("pauseProducing"), ci.lookup("resumeProducing")
+    if pp is None or rs is None:
+        raise AnchorVanished("Segmentation no longer implements pauseProducing/resumeProducing")
+    r.site(rs, None, "resume reopens what pause closed")
+
+    def const_store(q, x, truth):
+        v = assign_value(q, x) if x in node_stores(q) else None
+        return isinstance(v, ast.Constant) and bool(v.value) is truth
+    cleared = sorted({x for q in pp.cfg().nodes for x in node_stores(q)
+                      if x.startswith("self.") and x.count(".") == 1 and const_store(q, x, False)})
+    for x in cleared:
+        blocking = None
+        for g in reach.values():
+            gnorm = FlowNorm(g)
+            refs = {q.id for q in g.cfg().nodes if any(reach_refs(g, q, reach))} | ({gn.id} if g is F else set())
+            if not refs:
+                continue
+
+            def open_(q, lab, _g=gnorm, _x=x):
+                f_ = _g.edge_fact(q, lab)
+                return bool(f_) and f_[0] == "truth" and f_[1] == _x
+            tested = any(open_(q, lab) for q in g.cfg().nodes if q.kind == "test" for (_d, lab) in g.cfg().succ[q.id])
+            if tested and not find_path_avoiding(g.cfg(), lambda q, _r=refs: q.id in _r, gate_edge=open_):
+                blocking = g
+                break
+        if blocking is None:
+            continue
+        rcfg = rs.cfg()
+        direct = {q.id for q in rcfg.nodes if reach_refs(rs, q, reach)[0]}
+        for (n, w) in find_path_avoiding(rcfg, lambda q: q.kind == "exit" or q.id in direct,
+                                         gate_node=lambda q, _x=x: const_store(q, _x, True), skip_exc_edges=True):
+            r.violation(rs, rs.loc(), "pauseProducing clears %s and %s goes on only when it is set, but resumeProducing can finish "
+                        "without setting it again: a read that was paused once never delivers the rest of its slice (path: %s)"
+                        % (x, short(blocking), w.brief()), w)
+            break
+
+
 def run_clip(ctx, r):
     idx = ctx.idx
     rd = idx.func(NODE + ".read")
@@ -810,6 +1290,33 @@ def run_clip(ctx, r):
         v = s.expand(n, n.ast.value)
         if isinstance(v, ast.Call) and call_tail(v) == "succeed":
             r.require(len(v.args) == 1 and nf(v.args[0]) == rp[0], rd, rd.loc(n.ast), "an empty read returns %s, not the consumer" % nf(v))
+    # the clipped range (offset + size <= file size, with equality for every read up to EOF) must be accepted by
+    # whatever Segmentation.__init__ asserts about it
+    sp = first_positional_params(sinit)
+    nrm = Normaliser(Env(None, depth=0))
+    fin = FlowNorm(sinit)
+    FSZ = sp[0] + "._verifycap.size"
+    slack = Poly.atom(FSZ) - Poly.atom(sp[1]) - Poly.atom(sp[2])         # >= 0 for every clipped range, == 0 up to EOF
+    for n in sinit.cfg().nodes:
+        if n.kind != "test" or not getattr(n, "assume", False):
+            continue
+        for (d_, lab) in sinit.cfg().succ[n.id]:
+            if not (isinstance(lab, tuple) and lab[0] == "T"):
+                continue
+            f = fin.edge_fact(n, lab)
+            if not f or f[2] is None or f[0] not in ("<", "<=", "==", "!="):
+                continue
+            try:
+                diff = nrm.poly(parse_expr(f[2])) - nrm.poly(parse_expr(f[1]))      # fact: 0 <op> diff
+            except Exception:
+                continue
+            atoms = set(diff.atoms())
+            if FSZ not in atoms or not (atoms & {sp[1], sp[2]}):
+                continue
+            ok = (f[0] == "<=" and diff == slack) or (f[0] == "<" and diff == slack + Poly.const(1))
+            r.require(ok, sinit, sinit.loc(n.ast), "Segmentation.__init__ asserts %s, which rejects clipped ranges (%s + %s <= file "
+                      "size, equal for every read that ends at EOF): such reads fail with AssertionError" % (
+                          src(sinit, n.ast), sp[1], sp[2]))
 
 
 def run_trim(ctx, r):
@@ -995,3 +1502,13 @@ def run(ctx: Context):
     with ctx.rule("C04.8", "R1/E3", "whoever retires the node's active fetcher (cancel, delivery, failure) resets "
                   "_active_segment and then starts the next queued request, so the other reads go on", expected=3) as r:
         run_restart(ctx, r)
+    with ctx.rule("C04.9", "R6", "every read() returns a Deferred that fires with the caller's consumer: succeed(consumer) for "
+                  "the empty read, else the Deferred Segmentation completes with its consumer, handed up unchanged", expected=5) as r:
+        run_result(ctx, r)
+    with ctx.rule("C04.10", "R1/E3", "every queued segment request is started (get_segment) and, once taken out of the queue, "
+                  "handed to _deliver, which fires its Deferred while the request is active", expected=5) as r:
+        run_service(ctx, r)
+    with ctx.rule("C04.11", "R1/E7", "the segment Deferred of a read has the writer as success callback, then a retry errback "
+                  "whenever the segment size is a guess; the writer continues the read; resumeProducing reopens the gate that "
+                  "pauseProducing closed", expected=4) as r:
+        run_chain(ctx, r)
